@@ -1188,6 +1188,13 @@ def model_obs(case, resps):
 
 
 def compare(impl, model):
+  d = _compare(impl, model)
+  if d is not None:
+    _stat('verdict', 'disagreement')       # see `extra`: a coverage guard never masks a verdict
+  return d
+
+
+def _compare(impl, model):
   a, b = impl['ops'], model['ops']
   if len(a) != len(b):
     return f'{len(a)} vs {len(b)} observations'
@@ -1243,10 +1250,17 @@ def extra(ctx):
   # tuple key at depth 0, 1 and >= 2; items / apply on a Key-object key lying next to the nested path it spells
   holes2 = [x for x in KEYOBJ_NEED if not _STATS.get('key-object', {}).get(x)]
   if holes or holes2:
-    from harness.core import InfraError
-    raise InfraError('C18 generator missed promised classes' +
-                     (f' (keys spelled like reserved keys): {holes}' if holes else '') +
-                     (f' (mapping keys that are path-like objects): {holes2}' if holes2 else ''))
+    msg = 'C18 generator missed promised classes' + \
+        (f' (keys spelled like reserved keys): {holes}' if holes else '') + \
+        (f' (mapping keys that are path-like objects): {holes2}' if holes2 else '')
+    # The classes count operations that SUCCEEDED: an implementation that is broken exactly there makes them fail, and
+    # the run then HAS its verdict (disagreements / oracle failures).  A coverage guard must never mask a verdict: the
+    # infrastructure failure is raised only for a run without any violation.
+    if _STATS.get('verdict'):
+      ctx.notes.append('coverage guard not enforced, the run has violations: ' + msg)
+    else:
+      from harness.core import InfraError
+      raise InfraError(msg)
 
 
 def _walk_ids(d, acc):
@@ -1394,6 +1408,8 @@ def _keyobj_stats(case, op, o, kind):
 
 
 def nontrivial(case, obs):
+  if obs.get('laws'):
+    _stat('verdict', 'oracle failure')
   for op, o in zip(case['ops'], obs['ops']):
     kind = 'inplace' if op.get('in_place') else op['op']
     if not o.get('skipped'):
